@@ -4706,7 +4706,9 @@ class Pack:
     def __getitem__(self, sha1: "ObjectID | RawObjectID") -> ShaFile:
         """Retrieve the specified SHA1."""
         type, uncomp = self.get_raw(sha1)
-        return ShaFile.from_raw_string(type, uncomp, sha=sha1)
+        return ShaFile.from_raw_string(
+            type, uncomp, sha=sha1, object_format=self.object_format
+        )
 
     def iterobjects(self) -> Iterator[ShaFile]:
         """Iterate over the objects in this pack."""
